@@ -21,6 +21,20 @@ func (e *iso9660encoder) padLastSector() {
 	}
 }
 
+// appendDirEntries writes records of one directory: record which doesn't fit to the rest of current sector
+// starts in the next one, directory ends at sector boundary (layout must match dirEntriesSize).
+func (e *iso9660encoder) appendDirEntries(entries []directoryEntry) {
+	for _, entry := range entries {
+		if e.size()%sectorSize+entry.size() > sectorSize {
+			e.padLastSector()
+		}
+
+		entry.encode(e)
+	}
+
+	e.padLastSector()
+}
+
 func (e *iso9660encoder) appendByte(b byte) {
 	*e = append(*e, b)
 }
